@@ -251,6 +251,65 @@ def short_circuit(chk, facts):
     chk.floor(rule, "guarded operand evaluations", total, 14)
 
 
+def set_tables(chk, facts):
+    """ast::value::Set keeps a fast all-literal representation next to the authoritative one.
+    Which answers may be given WITHOUT consulting the authoritative set follows from the
+    invariant `fast.is_some() <=> every element is a literal` (spec derived here, not copied):
+      is_subset(self, other): constant false is sound only when self has a non-literal and other is all-literal;
+      is_disjoint: no constant answer is sound (mixed sets can still share literals);
+      contains(v): constant false is sound only when the set is all-literal and v is not a literal."""
+    rule = "C02.TABLE.set"
+    SET = "cedar_policy_core::ast::value::Set::"
+    n = 0
+    for op, other_kind in (("is_subset", "set"), ("is_disjoint", "set"), ("contains", "value")):
+        f = get_fn(chk, facts, rule, SET + op)
+        if f is None:
+            continue
+        for s_fast in (True, False):
+            for o_fast in (True, False):
+                class O(AtomOracle):
+                    def discriminant(self, path, adt):
+                        if adt.endswith("Option") and path[-1:] == ("fast",):
+                            fast = s_fast if path[0] == "arg1" else o_fast
+                            return 1 if fast else 0
+                        if adt.endswith("ValueKind"):
+                            return 0 if o_fast else 1      # Lit is variant 0
+                        return None
+                try:
+                    ret, trace = tt.Interp(f, O()).run(arg_syms(f))
+                except tt.Undecided as e:
+                    chk.ob(rule, "%s:%s,%s" % (op, s_fast, o_fast), False, "undecided: %s" % e, where=f.where(), fn=f.name)
+                    continue
+                n += 1
+                if ret[0] == "int":
+                    const = bool(ret[1])
+                    if op == "is_subset":
+                        sound = (not s_fast) and o_fast and const is False
+                    elif op == "is_disjoint":
+                        sound = False
+                    else:
+                        sound = s_fast and (not o_fast) and const is False
+                    chk.ob(rule, "%s:self_all_literal=%s,%s=%s" % (op, s_fast, "other_all_literal" if other_kind == "set" else "value_is_literal", o_fast), sound,
+                           "%s answers the constant %s without looking at the elements; %s" % (op, const, "sound by the all-literal invariant" if sound else
+                                                                                               "NOT implied by the invariant (a mixed set can still share / contain literal elements)"),
+                           where=f.where(), fn=f.name, key="%s:%s:%s:%s" % (rule, op, s_fast, o_fast), sample={"op": op, "self_fast": s_fast, "other_fast": o_fast, "answer": const})
+                else:
+                    cs = [c for c in res_calls(ret)]
+                    fld = {p[1] for p in syms(ret) if len(p) > 1}
+                    if s_fast and o_fast:
+                        ok = fld == {"fast"} or ("fast" in fld and other_kind == "value")
+                    else:
+                        ok = "authoritative" in fld and (not s_fast or "fast" not in fld or True)
+                        # a set with a non-literal must be answered from the authoritative representation
+                        if (not s_fast) and "authoritative" not in fld:
+                            ok = False
+                    a1 = [p for p in syms(ret) if p[0] == "arg1"]
+                    chk.ob(rule, "%s:self_all_literal=%s,%s=%s" % (op, s_fast, "other_all_literal" if other_kind == "set" else "value_is_literal", o_fast), ok and bool(a1),
+                           "%s is computed by %s over field(s) %s" % (op, [c.split("::")[-1] for c in cs][:2], sorted(fld)),
+                           where=f.where(), fn=f.name, key="%s:%s:%s:%s" % (rule, op, s_fast, o_fast), sample={"op": op, "self_fast": s_fast, "other_fast": o_fast, "computed_over": sorted(fld)})
+    chk.floor(rule, "rows", n, 12)
+
+
 def run(chk, facts, tier):
     facts.load_crate("cedar_policy_core.lib")
     chk.explanation = (
@@ -268,4 +327,5 @@ def run(chk, facts, tier):
                                                      "src/tpe/evaluator.rs", "src/ast/partial_value.rs"], "evaluator")
     short_circuit(chk, facts)
     fold_table(chk, facts)
+    set_tables(chk, facts)
     c20.dispatch(chk, facts)
